@@ -38,6 +38,115 @@ def opt_suffix(opts):
 
 
 
+TINY = Fraction(1, 2 ** 40)
+OFFSET = Fraction(2 ** 17)
+
+
+def gen_tolerance_block(rng, n, kinds):
+    """operations on functions whose values are tiny (k * 2^-40) or share a large offset (2^17 + d): equality of
+    values means equality, not closeness.  An `isclose`-style tolerance anywhere in the code (zero tests of the
+    maskers, redundant-step removal, `==`) merges such values; every observation here is compared with a purely
+    relative tolerance (`reltol=1`).  kinds: subset of arith, rel, logic, mask, ident."""
+    progs = []
+    for _ in range(n):
+        mode = rng.choice(["tiny", "tiny", "offset"])
+        if mode == "tiny":
+            vals = [TINY * k for k in (0, 1, 2, -1, 3, 0)]
+            scal = [TINY * k for k in (1, 2, -1)] + [Fraction(0), Fraction(2)]
+        else:
+            vals = [OFFSET + d for d in (0, 1, 2, -1, Fraction(1, 2))]
+            scal = [OFFSET, OFFSET + 1, Fraction(2), Fraction(1, 2)]
+        b = Builder(rng.choice(["int", "int", "float", "dt"]))
+        cl = rng.choice("LR")
+        nanp = rng.choice([0.0, 0.2])
+        f = rand_spec(rng, cl, maxsteps=5, span=8, nanp=nanp, vals=vals, stepfree_p=0.0)
+        g = rand_spec(rng, cl, maxsteps=4, span=8, nanp=nanp, vals=vals, stepfree_p=0.1)
+        A = b.emit(f, rng.choice(["fromvalues", "layers", "layerv"]), rng)
+        B = b.emit(g, rng.choice(["fromvalues", "layers", "layerv"]), rng)
+        if rng.random() < 0.3:
+            b.add(f"touch {A} {rng.choice(['deltas', 'values', 'both'])}")
+        c = "#" + fs(rng.choice(scal))
+        h = b.reg("h")
+        kind = rng.choice(kinds)
+        if kind == "arith":
+            op = rng.choice(BINOPS_ARITH)
+            x, y = rng.choice([(A, B), (A, B), (A, c), (c, A)])
+            if op == "div" and mode == "tiny":
+                # 1 / tiny is huge: mixing 2^40 and 2^-40 in a later sum is beyond 53 bits (float absorption, not a defect)
+                x, y = A, "#2"
+            b.add(f"bin {h} {op} {x} {y}", focus=True)
+        elif kind == "rel":
+            op = rng.choice(BINOPS_REL + ["eq", "ne"])
+            x, y = rng.choice([(A, B), (A, c), (c, A), (A, c)])
+            b.add(f"bin {h} {op} {x} {y}", focus=True)
+        elif kind == "logic":
+            x, y = rng.choice([(A, B), (A, c), (c, A)])
+            b.add(f"bin {h} {rng.choice(BINOPS_LOGIC)} {x} {y}", focus=True)
+        elif kind == "mask":
+            b.add(f"{rng.choice(['mask', 'where'])} {h} {B} {A}", focus=True)
+        else:
+            # the same function reached two ways must be identical; a different one must not
+            op = rng.choice(["add", "sub"])
+            b.add(f"bin {h} {op} {A} {B}", focus=True)
+            b.add(f"ident {h} {A} ;; reltol=1", focus=True)
+            b.add(f"ident {A} {B} ;; reltol=1", focus=True)
+        for r in (h, A):
+            b.add(f"frame {r} ;; reltol=1", focus=True)
+            b.add(f"nsteps {r}", focus=True)
+            xs = " ".join(fs(x) for x in b.critical())
+            b.add(f"sample {r} {xs} ;; reltol=1", focus=True)
+        if kind == "ident" or (kind == "arith" and op in ("add", "sub")):
+            # the result is a first-class operand (not after mul / div: sums of values of very different magnitude
+            # are beyond 53 bits - float absorption, not a defect)
+            k = b.reg("k")
+            b.add(f"bin {k} {rng.choice(['add', 'sub'])} {h} {B}", focus=True)
+            b.add(f"frame {k} ;; reltol=1", focus=True)
+        b.tags.update(kind="tolerance", mode=mode, op=kind)
+        progs.append(b.program())
+    return progs
+
+
+def gen_tiny_stats(rng, n, kinds):
+    """statistics of functions whose values are tiny (k * 2^-40): every moment simply scales, so an absolute tolerance
+    anywhere in the code (a zero test with `isclose`, ...) shows; compared with a purely relative tolerance.
+    kinds: subset of moments, dist, cov"""
+    progs = []
+    vals = [TINY * k for k in (1, 2, 3, -1, 5, 0)]
+    for _ in range(n):
+        # numeric domains only: on datetime domains value x length is a Timedelta, quantised to 1 ns
+        b = Builder(rng.choice(["int", "int", "float", "npfloat"]))
+        cl = rng.choice("LR")
+        while True:
+            f = rand_spec(rng, cl, maxsteps=5, span=8, nanp=0.15, vals=vals, stepfree_p=0.0)
+            g = rand_spec(rng, cl, maxsteps=5, span=8, nanp=0.15, vals=vals, stepfree_p=0.0)
+            if len(f.rows) >= 2 and len(g.rows) >= 2 and spec_pieces(f) and spec_pieces(g):
+                break
+        A = b.emit(f, rng.choice(["fromvalues", "layers", "layerv"]), rng)
+        Bq = b.emit(g, rng.choice(["fromvalues", "layers", "layerv"]), rng)
+        b.note_points([0, 8])
+        kind = rng.choice(kinds)
+        if kind == "moments":
+            b.add(f"vsums {A} ;; reltol=1", focus=True)
+            for name in ("mean", "var", "std2", "integral"):
+                b.add(f"stat {A} {name} none none default ;; via=method reltol=1", focus=True)
+            b.add(f"stat {A} var 0 8 default ;; via=agg reltol=1", focus=True)
+        elif kind == "dist":
+            ys = " ".join(fs(TINY * k) for k in (0, 1, 2, 3, 5, -1))
+            b.add(f"ecdf {A} right {ys} ;; reltol=1", focus=True)
+            b.add(f"ecdf {A} left {ys} ;; reltol=1", focus=True)
+            b.add(f"stat {A} min none none default ;; reltol=1", focus=True)
+            b.add(f"stat {A} max none none default ;; reltol=1", focus=True)
+            b.add(f"vir {A} none none default ;; reltol=1", focus=True)
+        else:
+            for which in ("cov", "corr"):
+                b.add(f"{which} {A} {Bq} 0 8 0 pre ;; reltol=1", focus=True)
+                b.add(f"{which} {A} {A} 0 8 0 pre ;; reltol=1", focus=True)
+            b.add(f"stat {A} var 0 8 default ;; reltol=1", focus=True)
+        b.tags.update(kind="tinystats", op=kind)
+        progs.append(b.program())
+    return progs
+
+
 def requery_probe(b, rng, operand, stmt_builder, p=0.15):
     """query - mutate - query: recompute the same operation after an in-place layer on the operand; a memo that
     layer() does not reset would answer from the past"""
@@ -236,6 +345,14 @@ def add_followups(b, rng, h):
     m = b.reg("m")
     b.add(f"bin {m} mul {h} {h}", focus=True)
     b.add(f"frame {m}", focus=True)
+    # 0/1 results are numbers, not booleans: -h, h + h, h - h are -1/0, 2/0, 0 (a bool-typed value anywhere breaks these)
+    ng, dbl, zz = b.reg("n"), b.reg("d"), b.reg("z")
+    b.add(f"un {ng} neg {h}", focus=True)
+    b.add(f"frame {ng}", focus=True)
+    b.add(f"bin {dbl} add {h} {h}", focus=True)
+    b.add(f"frame {dbl}", focus=True)
+    b.add(f"bin {zz} sub {h} {h}", focus=True)
+    b.add(f"frame {zz}", focus=True)
 
 
 def gen_pointwise(rng, n, ops, followups=False, scalar_vals=None):
@@ -825,6 +942,28 @@ def gen_c11_periods(rng, n):
     return progs
 
 
+def gen_slicer_extrema(rng, n):
+    """the slicer's min / max over an interval are the windowed min / max with that interval's closedness
+    (`C10b.slicer_extremes_eq_windows`): both forms side by side"""
+    progs = []
+    for _ in range(n):
+        b = Builder(pick_domain(rng))
+        f = pick_spec(rng, small_p=0.3, nanp=0.3, stepfree_p=0.02)
+        a = b.emit_any(f, rng)
+        kind, ivs = gen_intervals(rng, b)
+        if not ivs:
+            continue
+        ivstr = " ".join(f"{fs(l)}:{fs(r)}" for l, r in ivs)
+        c = rng.choice(["left", "right", "both", "neither", "default"])
+        for name in ("min", "max"):
+            b.add(f"slicer {a} {name} {c} {ivstr}" + opt_suffix(["via=" + rng.choice(["method", "agg"])]), focus=True)
+            for (l, r) in ivs[:3]:
+                b.add(f"stat {a} {name} {fs(l)} {fs(r)} {c}", focus=True)
+        b.tags.update(kind="slicerextrema", ikind=kind, iclosed=c)
+        progs.append(b.program())
+    return progs
+
+
 def gen_c11(rng, n):
     progs = gen_c11_periods(rng, max(10, n // 8))
     for _ in range(n):
@@ -1108,7 +1247,7 @@ def emit_op(b, rng, A, B, want=None):
     elif kind == "copy":
         b.add(f"copy {h} {A}")
     else:
-        b.add(f"agg {h} {rng.choice(['sum', 'mean', 'max', 'min', 'median'])} {A} {B}" +
+        b.add(f"agg {h} {rng.choice(['sum', 'mean', 'max', 'min', 'median', 'logical_or', 'logical_and'])} {A} {B}" +
               opt_suffix(["container=" + rng.choice(["list", "tuple", "sarray", "series"])]))
     return h, kind
 
@@ -1116,6 +1255,8 @@ def emit_op(b, rng, A, B, want=None):
 def mutate(b, rng, r):
     pts = sorted(b.pts) or [Fraction(1)]
     s = rng.choice(pts + pts + [None, rng.choice(pts) + Fraction(1, 2)])
+    if rng.random() < 0.2:
+        s = None            # an open left end updates the initial value in place
     e = rng.choice(pts + pts + [None])
     v = rng.choice([1, -1, 2, 5])
     if rng.random() < 0.65:
@@ -1173,6 +1314,11 @@ def gen_c13(rng, n):
         b.add(f"frame {B}", focus=True)
         h, kind = emit_op(b, rng, A, B, want=want)
         h2, kind2 = emit_op(b, rng, A, B) if rng.random() < 0.4 else (None, None)
+        if h2 is None and rng.random() < 0.5:
+            # a second-generation object: derived from the RESULT by an operation that may pass attributes on by
+            # reference (copy, shift, scalar fill); writes to either must not reach the other
+            h2, kind2 = emit_op(b, rng, h, B, want=rng.choice(["copy", "copy", "shift", "fillnas", "fillnam"]))
+            kind2 = "derived:" + kind2
         regs = [A, B, h] + ([h2] if h2 else [])
         for r in regs:
             b.add(f"frame {r}", focus=True)
@@ -1186,6 +1332,58 @@ def gen_c13(rng, n):
             for r in regs:
                 b.add(f"frame {r}", focus=True)
         b.tags.update(op=kind, op2=str(kind2))
+        progs.append(b.program())
+    return progs
+
+
+def gen_c13_chain(rng, n):
+    """result -> second-generation object (copy / shift / fill of the result) -> a layer with an open left end on one
+    of the two: the other one must not move.  (The initial value is handed on by reference by several operations and
+    updated in place by `layer`; a mutable scalar anywhere in that chain is shared state.)"""
+    progs = []
+    for _ in range(n):
+        b = Builder(pick_domain(rng))
+        cl = rng.choice("LR")
+        fa = pick_spec(rng, cl, small_p=0.4, nanp=0.0, stepfree_p=0.0)
+        fb = pick_spec(rng, cl, small_p=0.4, nanp=0.0, stepfree_p=0.1)
+        A = b.emit_any(fa, rng)
+        B = b.emit_any(fb, rng)
+        h = b.reg("h")
+        kind = rng.choice(["agg", "agg", "mulc", "divc", "cmul", "bin", "rel", "logic", "un", "clipnone"])
+        if kind == "agg":
+            b.add(f"agg {h} {rng.choice(['logical_or', 'logical_and', 'sum', 'max', 'mean'])} {A} {B}" +
+                  opt_suffix(["container=" + rng.choice(["list", "tuple", "sarray", "series"])]))
+        elif kind == "mulc":
+            b.add(f"bin {h} mul {A} #{rng.choice([2, -1, 3])}")
+        elif kind == "divc":
+            b.add(f"bin {h} div {A} #{rng.choice([2, -2])}")
+        elif kind == "cmul":
+            b.add(f"bin {h} mul #{rng.choice([2, 3])} {A}")
+        elif kind == "bin":
+            b.add(f"bin {h} {rng.choice(BINOPS_ARITH)} {A} {B}")
+        elif kind == "rel":
+            b.add(f"bin {h} {rng.choice(BINOPS_REL)} {A} {B}")
+        elif kind == "logic":
+            b.add(f"bin {h} {rng.choice(BINOPS_LOGIC)} {A} {B}")
+        elif kind == "un":
+            b.add(f"un {h} {rng.choice(UNOPS)} {A}")
+        else:
+            b.add(f"clip {h} {A} none none")
+        d, kd = emit_op(b, rng, h, B, want=rng.choice(["copy", "copy", "shift", "fillnas", "fillnam"]))
+        regs = [A, B, h, d]
+        for r in regs:
+            b.add(f"frame {r}", focus=True)
+        for _ in range(2):
+            victim = rng.choice([h, d, d])
+            e = rng.choice(sorted(b.pts) + [None])
+            v = rng.choice([1, -2, 5])
+            if rng.random() < 0.7:
+                b.add(f"layer {victim} none {fs(e)} {v}")
+            else:
+                b.add(f"layerv {victim} none:{fs(e)}:{v} ;; route={rng.choice(['list', 'ndarray', 'series'])}")
+            for r in regs:
+                b.add(f"frame {r}", focus=True)
+        b.tags.update(kind="chain", op=kind, derived=kd)
         progs.append(b.program())
     return progs
 
@@ -1613,6 +1811,35 @@ def gen_c19(rng, n):
             b.add(f"covm corr 0 10 {A} {B} {C}" + via, focus=True)
         progs.append(b.program())
     return progs + gen_matrices(rng, max(15, n // 10))
+
+
+def gen_cov_overflow(rng, n):
+    """one-year-per-tick datetime domains with values around 10: f and g alone stay inside the Timedelta range, the
+    product f*g times a length does not, so mean(f*g) runs through the library's overflow fallback"""
+    progs = []
+    vals = [Fraction(x) for x in (8, 10, 12, 15, -9, 12)]
+    for _ in range(n):
+        b = Builder(rng.choice(["dtbig", "tdbig"]))
+        cl = rng.choice("LR")
+        while True:
+            f = rand_spec(rng, cl, maxsteps=5, span=10, nanp=0.3, vals=vals, stepfree_p=0.0)
+            g = rand_spec(rng, cl, maxsteps=5, span=10, nanp=0.3, vals=vals, stepfree_p=0.0)
+            def interior_gap(sp):
+                vs_ = [v for _, v in sp.rows]
+                return any(v is None and any(u is not None for u in vs_[:i]) and any(u is not None for u in vs_[i + 1:])
+                           for i, v in enumerate(vs_))
+            if (len(f.rows) >= 2 and len(g.rows) >= 2 and spec_pieces(f, 0, 10) and spec_pieces(g, 0, 10)
+                    and (interior_gap(f) or interior_gap(g))):
+                break
+        A = b.emit(f, rng.choice(["fromvalues", "layers", "layerv"]), rng)
+        Bq = b.emit(g, rng.choice(["fromvalues", "layers", "layerv"]), rng)
+        b.note_points([0, 10])
+        for which in ("cov", "corr"):
+            b.add(f"{which} {A} {Bq} 0 10 0 pre", focus=True)
+        b.add(f"cov {Bq} {A} 0 10 0 pre", focus=True)
+        b.tags.update(kind="covoverflow")
+        progs.append(b.program())
+    return progs
 
 
 # ----------------------------------------------------------------------------- C20 shift / diff / rolling
